@@ -195,9 +195,16 @@ def main():
     # ---- simulated parallel walks
     nsim = 500 if h.deep else 130
     pool = [c for c in cases if c.spec()[2]]
+    gaps = [c for c in pool if getattr(c, "tag", None) == "gap"]
     for si in range(nsim):
-        c = rng.choice(pool)
-        par = rng.choice([2, 2, 3, 4])
+        # a share of the schedules goes to the pyramids with a dead accepted tile next to live siblings, with enough workers
+        # for a prematurely released parent to start while a sibling is still running
+        if gaps and si % 3 == 0:
+            c = rng.choice(gaps)
+            par = rng.choice([3, 4])
+        else:
+            c = rng.choice(pool)
+            par = rng.choice([2, 2, 3, 4])
         tw = rng.choice([0.02, 0.1, 0.5])
         sim, log = walk_sim(c, par, simmp.RandomChooser(rng.randrange(2 ** 31), timeout_weight=tw, feeder_weight=rng.choice([1.0, 0.2])))
         what = sim.outcome + (f": {type(sim.main.exc).__name__}: {sim.main.exc}" if sim.main.exc is not None else "")
